@@ -14,12 +14,12 @@ EXHAUSTIVE = {"quick": True, "thorough": True}
 ASSUMPTIONS = ["usize is 64 bits", "vectors longer than 2^64 are not modelled"]
 
 
-def generate(seed, tier):
+def generate(seed, tier, rnd=0):
     rng = Rng(seed)
     n = {"quick": 4, "thorough": 5, "search": 5}[tier]
-    out = ic.exhaustive(ID, n, False, strides=(2,) if tier == "quick" else (2, 1 << 63))
+    out = ic.exhaustive(ID, n, False, strides=(2,) if tier == "quick" else (2, 1 << 63)) if rnd == 0 else []
     out += ic.random_seqs(ID, rng, {"quick": 300, "thorough": 3000, "search": 1500}[tier], {"quick": 40, "thorough": 400, "search": 60}[tier], False)
-    out += ic.stride_scripts(ID, rng, 200, 3 if tier == "quick" else 4)
+    out += ic.stride_scripts(ID, rng, 200, (3 if tier == "quick" else 4) if rnd == 0 else 1)
     return out
 
 
